@@ -6,7 +6,11 @@ from harness import common, gen, api
 LEVEL = "other"
 
 
-def wing(RA, a0, N, dist, reid, b, cluster=None, ref_area=None):
+class PlanformMismatch(Exception):
+    pass
+
+
+def wing(RA, a0, N, dist, reid, b, cluster=None, ref_area=None, unit_tag=None, profile_drag=False):
     bf = 2.0 * b
     cr = 4.0 * bf / (math.pi * RA)           # S = pi b_full c_root / 4,  RA = b_full^2 / S
     g = {"N": N, "reid_corrections": reid}
@@ -22,14 +26,21 @@ def wing(RA, a0, N, dist, reid, b, cluster=None, ref_area=None):
     ac = {"CG": [0, 0, 0], "weight": 10.0,
           "airfoils": {"af": {"type": "linear", "aL0": 0.0, "CLa": a0, "CmL0": 0.0, "Cma": 0.0, "CD0": 0.0, "CD1": 0.0, "CD2": 0.0, "geometry": {"NACA": "0010"}}},
           "wings": {"w": {"ID": 1, "side": "both", "is_main": True, "semispan": b, "chord": ["elliptic", cr], "airfoil": "af", "grid": g}}}
+    if unit_tag is not None:
+        # the root chord given in another unit of the scene's system (inches in an English scene, centimetres in an SI one)
+        ac["wings"]["w"]["chord"] = ["elliptic", cr * unit_tag[1], unit_tag[0]]
+    if profile_drag:
+        # a section with profile drag: the induced drag is then the 'inviscid' part of the report
+        ac["airfoils"]["af"].update(CD0=0.008, CD2=0.012)
     if ref_area is not None:
         # the user's reference area need not be the planform area (here: the enclosing rectangle); lengths stay the span and mean chord
         ac["reference"] = {"area": ref_area * 2.0 * b * cr, "lateral_length": 2.0 * b, "longitudinal_length": math.pi * cr / 4.0}
     return ac, cr
 
 
-def measure(MX, RA, a0, N, dist, reid, alpha, units, b, V, cluster=None, ref_area=None, orientation=None, constrain=False):
-    ac, cr = wing(RA, a0, N, dist, reid, b, cluster=cluster, ref_area=ref_area)
+def measure(MX, RA, a0, N, dist, reid, alpha, units, b, V, cluster=None, ref_area=None, orientation=None, constrain=False, unit_tag=False, profile_drag=False):
+    ac, cr = wing(RA, a0, N, dist, reid, b, cluster=cluster, ref_area=ref_area, unit_tag=((("in", 12.0) if units == "English" else ("cm", 100.0)) if unit_tag else None),
+                  profile_drag=profile_drag)
     rho = 0.0023769 if units == "English" else 1.225
     sd = {"units": units, "solver": {"type": "nonlinear", "convergence": 1e-11}, "scene": {"atmosphere": {"rho": rho}}}
     if constrain:
@@ -38,7 +49,16 @@ def measure(MX, RA, a0, N, dist, reid, alpha, units, b, V, cluster=None, ref_are
     if orientation is not None:
         st["orientation"] = orientation
     sc = gen.build_scene(MX, sd, [("a", ac, st, {})])
-    f = sc.solve_forces(non_dimensional=True, dimensional=False, verbose=False)["a"]["total"]
+    # the planform first (no solve needed): a wrong planform may not even converge
+    mac0, S0 = sc.MAC()["a"]["length"], sc.get_aircraft_reference_geometry()[0]
+    if ref_area is None and (abs(mac0 / (8.0 * cr / (3.0 * math.pi)) - 1.0) > TOL or abs(S0 / (math.pi * 2.0 * b * cr / 4.0) - 1.0) > TOL):
+        raise PlanformMismatch("MAC %.6g (analytic %.6g), area %.6g (analytic %.6g)" % (mac0, 8.0 * cr / (3.0 * math.pi), S0, math.pi * 2.0 * b * cr / 4.0))
+    full = sc.solve_forces(non_dimensional=True, dimensional=False, verbose=False)["a"]
+    f = dict(full["total"])
+    if profile_drag:
+        f["CD"] = full["inviscid"]["CD"]["total"]             # induced drag = the inviscid part
+        if abs(full["total"]["CD"] - full["viscous"]["CD"]["total"] - f["CD"]) > 1e-9 * max(1.0, abs(full["total"]["CD"])):
+            f["CD"] = float("nan")                              # total = inviscid + viscous must hold as well
     a = math.radians(alpha)
     kS = 1.0 if ref_area is None else ref_area * 2.0 * b * cr / (math.pi * 2.0 * b * cr / 4.0)      # S_ref / S_planform
     f = {k: v * kS for k, v in f.items()}
@@ -61,6 +81,8 @@ def measure(MX, RA, a0, N, dist, reid, alpha, units, b, V, cluster=None, ref_are
 
 
 TOL = 0.005          # the property's 0.5 percent
+FLOOR_CLP = 0.003    # the roll-damping closed form carries the largest grid-independent part (finite roll rate and angle, central difference):
+                     # e.g. RA 9.41, linear spacing: 0.232, 0.254, 0.204 % for N = 20, 40, 80
 FLOOR = 0.002        # below this the error is dominated by what does not depend on the grid (finite-difference steps of the derivatives,
                      # finite angle): "monotonically closer" is asserted only while the error is above it
 
@@ -90,7 +112,7 @@ def run(chk):
         alpha = round(rng.uniform(0.5, 1.5), 2)      # "small angles": the roll-damping closed form degrades as alpha^2
         b = round(rng.uniform(2.0, 12.0), 2)
         V = round(rng.uniform(30.0, 150.0), 1)
-        var = ("plain", "cluster", "attitude", "ref_area")[it % 4]
+        var = ("plain", "cluster", "attitude", "ref_area", "unit_tag", "profile_drag")[it % 6]
         kw = {}
         if var == "cluster":
             kw["cluster"] = rng.choice([0.4, 0.5, 0.6])            # an extra clustering section: still cosine spacing, finer
@@ -99,10 +121,18 @@ def run(chk):
             kw["constrain"] = rng.random() < 0.5
         elif var == "ref_area":
             kw["ref_area"] = 1.0                                     # enclosing rectangle 2 b c_root as the reference area
+        elif var == "unit_tag":
+            kw["unit_tag"] = True
+        elif var == "profile_drag":
+            kw["profile_drag"] = True
         chk.count("variant=" + var)
         case = dict(kind="cosine", RA=RA, a0=a0, N=N, reid=reid, units=units, alpha=alpha, b=b, V=V, **kw)
         try:
             r = measure(MX, RA, a0, N, "cosine_cluster", reid, alpha, units, b, V, **kw)
+        except PlanformMismatch as e:
+            chk.case(case, nontrivial=True)
+            chk.violation("limit:planform", dict(case, what="mean aerodynamic chord / planform area differ from the analytic values: " + str(e)))
+            continue
         except Exception as e:
             chk.count("error=" + type(e).__name__)
             continue
@@ -134,7 +164,7 @@ def run(chk):
         for k in ("CL", "CDi", "CLa", "Clp", "MAC", "S"):
             e = [abs(r[k]) for r in rs]
             for i in range(len(e) - 1):
-                if e[i + 1] > max(e[i], FLOOR) * 1.02 + 1e-6:
+                if e[i + 1] > max(e[i], FLOOR_CLP if k == "Clp" else FLOOR) * 1.02 + 1e-6:
                     chk.violation("refine:%s:%s" % (dist, k), dict(case, what="refining N=%d -> %d moves %s away from the closed form (%.4f %% -> %.4f %%)"
                                                                    % (Ns[i], Ns[i + 1], k, 100 * e[i], 100 * e[i + 1]), errors=[100 * x for x in e]))
                     break
